@@ -115,7 +115,8 @@ Call(s) ==
                               !.nf = IF done THEN s.nf + 1 ELSE s.nf,
                               !.connect = @ \/ (done /\ Fields[s.nf].group = HsGroup),
                               !.res = "some"])
-       ELSE IF Bad(s.nf) /\ "ReleaseFirst" \notin Dev
+       \* without integrity protection (Trojan: TLS is expected underneath) altered bytes may also parse
+       ELSE IF Bad(s.nf) /\ "ReleaseFirst" \notin Dev /\ (lay.enc \/ ~s.accept)
             THEN IF s.early \/ s.buf >= GroupLen(s.nf) THEN [s EXCEPT !.res = "err"] ELSE s
        ELSE IF "NoGuard" \in Dev /\ s.buf < GroupLen(s.nf) THEN [s EXCEPT !.res = "panic"]
        ELSE IF s.buf < Guard(s.nf) THEN s                                  \* wait for the rest of the group
@@ -137,8 +138,8 @@ Call(s) ==
                  ELSE IF lay.stop0 /\ i = 1 THEN u                                          \* 2022: header call returns
                  ELSE Call(u)
 
-DecodeCall(e) ==
-  LET s0 == [early |-> e, nf |-> nf, buf |-> buf, raw |-> rawTaken, plain |-> plain, items |-> items,
+DecodeCall(e, a) ==
+  LET s0 == [early |-> e, accept |-> a, nf |-> nf, buf |-> buf, raw |-> rawTaken, plain |-> plain, items |-> items,
              connect |-> connect, lost |-> lost, res |-> "none"]
   IN IF nf = 1 /\ ExemptFirst > 0 /\ buf < ExemptFirst
        THEN IF buf < Fields[1].len THEN s0 ELSE [s0 EXCEPT !.res = "err"]  \* 2022: header not in the first read
@@ -177,8 +178,8 @@ Eof ==
 
 Decode ==
   /\ readable /\ ~Dead
-  /\ \E e \in BOOLEAN :
-     LET r == DecodeCall(e)
+  /\ \E e \in BOOLEAN, a \in BOOLEAN :
+     LET r == DecodeCall(e, a)
          goOn == Adapter = "ws" /\ "GoOnAfterErr" \in Dev
      IN
        /\ nf' = r.nf /\ buf' = r.buf /\ rawTaken' = r.raw /\ plain' = r.plain /\ items' = r.items
@@ -196,9 +197,10 @@ Spec == Init /\ [][Next]_vars
 Exempt == ExemptFirst > 0 /\ firstRead < ExemptFirst
 D == Deliverable(arrived)
 \* C04: once the adapter waits for input, everything whose last byte has arrived has been released
-NoStall == (~readable /\ ~Dead) => (plain = D[1] /\ items = D[2] /\ connect = D[3])
+Protected == lay.enc \/ BadFrom = 0     \* what the sender wrote is what the receiver must see
+NoStall == (~readable /\ ~Dead /\ Protected) => (plain = D[1] /\ items = D[2] /\ connect = D[3])
 \* C04/C05: never more than what the sender wrote up to the tamper point
-NeverAhead == plain <= D[1] /\ items <= D[2] /\ (connect => D[3])
+NeverAhead == Protected => (plain <= D[1] /\ items <= D[2] /\ (connect => D[3]))
 \* C04: a valid stream is never refused (2022 first-read rule and truncation by the peer excepted)
 NoErrorOnValid == failed => (Exempt \/ BadFrom > 0 \/ eof)
 \* C07
